@@ -231,6 +231,53 @@ BACKENDS = {
 
 
 def run_job(u, job, cfile, outdir, tier='quick', extra_defs=(), tag=''):
+    """one proof job.  Jobs whose specification needs real quantifiers run on an SMT back end; when the
+    code no longer satisfies such a contract the solver answers `unknown` (or does not finish) instead of
+    producing a model.  For those jobs (`falsify` in the unit file) the SAME harness is then re-run as a
+    bounded search: fixed small sizes (-D...), loops unwound instead of loop contracts, SAT back end, where
+    quantifiers over constant ranges expand.  A failure found there is a concrete counterexample on the
+    lowered real code and is reported; if the search finds nothing the job stays undecided (exit 2)."""
+    res = _run_job(u, job, cfile, outdir, tier, extra_defs, tag)
+    fz = job.get('falsify')
+    if not fz or job.get('canary_run'):
+        return res
+    undecided = res['status'] in ('timeout',) or (res['status'] == 'done' and res.get('cprover_status') == 'error') \
+        or (res['status'] == 'error' and 'unknown' in res.get('error', ''))
+    if not undecided:
+        return res
+    fj = dict(job)
+    for k in ('falsify', 'enforce', 'replace'):
+        fj.pop(k, None)
+    fj['loop_contracts'] = False
+    fj['backend'] = fz.get('backend', 'sat')
+    fj['defs'] = job.get('defs', []) + fz.get('defs', [])
+    fj['flags'] = fz.get('flags', [])
+    fj['drop_flags'] = fz.get('drop_flags', job.get('drop_flags', []))
+    fj['timeout'] = fz.get('timeout', 300)
+    fres = _run_job(u, fj, cfile, outdir, tier, extra_defs, tag + '.falsify')
+    res['cmds'] += fres['cmds']
+    res['solver_s'] = round(res['solver_s'] + fres['solver_s'], 2)
+    if fres['status'] == 'done' and any(p['status'] == 'FAILURE' for p in fres['props']):
+        for p in fres['props']:
+            if p['status'] == 'FAILURE':
+                p['desc'] += ' [unbounded proof undecided (%s); counterexample from bounded search: %s]' % (
+                    res.get('error') or 'SMT solver answered unknown', fz.get('bound', ' '.join(fz.get('defs', []))))
+        res['props'] = fres['props']
+        res['status'] = 'done'
+        res['backend'] = '%s, then bounded search on %s' % (job.get('backend'), fj['backend'])
+        res['falsified'] = True
+        res.pop('error', None)
+        res['json'] = fres.get('json')
+        return res
+    if res['status'] == 'done':
+        res['status'] = 'undecided'
+        res['error'] = 'SMT back end answered unknown and the bounded search (%s) found no counterexample: undecided' % fz.get('bound', '')
+    else:
+        res['error'] = res.get('error', '') + '; bounded search (%s) found no counterexample' % fz.get('bound', '')
+    return res
+
+
+def _run_job(u, job, cfile, outdir, tier='quick', extra_defs=(), tag=''):
     """one proof job = one enforced contract. returns dict"""
     name = job['name'] + tag
     gb0 = os.path.join(outdir, name + '.0.gb')
